@@ -64,8 +64,9 @@ claim(
 )
 claim(
     "C15",
-    "proof",
-    "Partial (mechanism 1 and the equality part). Proved on the real color/mod.rs for ALL doubles (NaN and infinities included) / all bytes: both clamping constructors yield "
+    "other",
+    "Partial (mechanism 1, the equality part, and the hex-literal scanner of mechanism 4). Level 'other' because one obligation (is_hex_color, 8 concrete identifiers) is a bounded stand-in; the rest are complete: "
+    "proved on the real color/mod.rs for ALL doubles (NaN and infinities included) / all bytes: both clamping constructors yield "
     "integer-rounded red/green/blue in [0,255] and alpha in [0,1]; named-color construction; change-alpha/opacify/transparentize clamp and leave rgb untouched; whiteness/blackness in [0,1] "
     "with sum <= 1; invert with weight 0 is the identity; a color written as bytes equals the same color built by rgba() in both orders, differing channels/alpha are unequal. "
     "Verus (unbounded): the hex-literal scanner parse_hex_color_contents consumes exactly 3, 4, 6 or 8 hex digits, never overflows, never underflows `start - 1`, and every channel it hands to the constructor is a byte "
